@@ -24,12 +24,12 @@ DG = 'peptacular.digestion'
 RET = f'{DG}:_return_digested_sequences'
 
 
-def _is_span_idx(e, i) -> bool:
-    return isinstance(e, ast.Subscript) and isinstance(e.value, ast.Name) and e.value.id == 'span' and \
+def _is_span_idx(e, i, var='span') -> bool:
+    return isinstance(e, ast.Subscript) and isinstance(e.value, ast.Name) and e.value.id == var and \
         isinstance(e.slice, ast.Constant) and e.slice.value == i
 
 
-def _cut_kind(e):
+def _cut_kind(e, var='span'):
     """classify the peptide-producing expression: ('fast'|'slice', wrapped, ok_bounds)"""
     # unwrap create_annotation(...) / .serialize()
     wrapped = []
@@ -44,13 +44,13 @@ def _cut_kind(e):
             continue
         break
     if isinstance(e, ast.Subscript) and isinstance(e.slice, ast.Slice) and norm_stmt(e.value) == 'annotation.sequence':
-        ok = _is_span_idx(e.slice.lower, 0) and _is_span_idx(e.slice.upper, 1) and e.slice.step is None
+        ok = _is_span_idx(e.slice.lower, 0, var) and _is_span_idx(e.slice.upper, 1, var) and e.slice.step is None
         return 'fast', wrapped, ok
     if isinstance(e, ast.Call) and isinstance(e.func, ast.Attribute) and e.func.attr == 'slice' and \
             norm_stmt(e.func.value) == 'annotation':
-        ok = len(e.args) == 2 and _is_span_idx(e.args[0], 0) and _is_span_idx(e.args[1], 1) and not e.keywords
+        ok = len(e.args) == 2 and _is_span_idx(e.args[0], 0, var) and _is_span_idx(e.args[1], 1, var) and not e.keywords
         return 'slice', wrapped, ok
-    if isinstance(e, ast.Name) and e.id == 'span':
+    if isinstance(e, ast.Name) and e.id == var:
         return 'span', wrapped, True
     return 'unknown', wrapped, False
 
@@ -85,19 +85,21 @@ def dispatcher(ctx, rep, clause):
                 raise AnalysisError(f'{RET}: return for {rtype} is not a generator expression')
             n_exprs += 1
             gen = g.generators[0]
-            ok_iter = isinstance(gen.target, ast.Name) and gen.target.id == 'span' and norm_stmt(gen.iter) == 'spans'
+            ok_iter = isinstance(gen.target, ast.Name) and norm_stmt(gen.iter) == 'spans' and len(g.generators) == 1 \
+                and not gen.ifs
+            var = gen.target.id if isinstance(gen.target, ast.Name) else 'span'
             elt = g.elt
             paired = None
             if rtype.endswith('-span'):
                 if isinstance(elt, ast.Tuple) and len(elt.elts) == 2:
-                    paired = isinstance(elt.elts[1], ast.Name) and elt.elts[1].id == 'span'
+                    paired = isinstance(elt.elts[1], ast.Name) and elt.elts[1].id == var
                     elt = elt.elts[0]
                 else:
                     paired = False
-            kind, wrapped, ok_bounds = _cut_kind(elt)
+            kind, wrapped, ok_bounds = _cut_kind(elt, var)
             if rtype == 'span':
                 ob(rep, 'SIB-dispatch', RET, f"'{rtype}': yields the spans themselves", kind == 'span' and ok_iter,
-                   'span for span in spans', f'yields `{norm_stmt(g.elt)}`', f.loc(st), clause)
+                   'span for span in spans', f'yields `{norm_stmt(g)[:80]}`', f.loc(st), clause)
                 continue
             ob(rep, 'SIB-dispatch', RET, f"'{rtype}' [{kind}]: cut with exactly (span[0], span[1]) over all spans",
                ok_bounds and ok_iter and kind in ('fast', 'slice'), norm_stmt(elt)[:70],
@@ -158,8 +160,25 @@ def front_ends(ctx, rep, clause):
         ob(rep, 'SIB-clone', g.fq, 'both stages call digest() with the same settings', a == b, f'{len(a)} keywords',
            f'stages differ in {sorted(k for k in set(a) | set(b) if a.get(k) != b.get(k))}', g.loc(recs[1].node), clause)
         # re-basing of spans: (span[0] + s, span[0] + e, span[2])
-    txt = ' '.join(norm_stmt(s) for s in ast.walk(g.node) if isinstance(s, ast.Assign))
-    ok = 'fixed_digested_span = (span[0] + digested_span[0], span[0] + digested_span[1], span[2])' in txt
+    ok = False
+    for a_ in ast.walk(g.node):
+        v = a_.value if isinstance(a_, ast.Assign) else (a_ if isinstance(a_, ast.Tuple) else None)
+        if isinstance(v, ast.Tuple) and len(v.elts) == 3:
+            e0, e1, e2 = v.elts
+
+            def plus(e, i):
+                if isinstance(e, ast.BinOp) and isinstance(e.op, ast.Add) and isinstance(e.left, ast.Subscript) and \
+                        isinstance(e.right, ast.Subscript) and isinstance(e.left.value, ast.Name) and \
+                        isinstance(e.right.value, ast.Name):
+                    for parent, child in ((e.left, e.right), (e.right, e.left)):
+                        if isinstance(parent.slice, ast.Constant) and parent.slice.value == 0 and \
+                                isinstance(child.slice, ast.Constant) and child.slice.value == i and \
+                                parent.value.id != child.value.id:
+                            return parent.value.id, child.value.id
+                return None
+            p0, p1 = plus(e0, 0), plus(e1, 1)
+            if p0 and p1 and p0 == p1 and _is_span_idx(e2, 2, p0[0]):
+                ok = True
     ob(rep, 'KIND', g.fq, 'later-stage spans are re-based by the parent span start', ok,
        '(parent.start + s, parent.start + e, ...)', 'sub-spans are no longer shifted by the start of their parent',
        g.loc(), clause)
@@ -195,6 +214,8 @@ def check(ctx, rep):
     C11.rewritten_fields(ctx, rep, 'C07d')
     C11.twins(ctx, rep, 'C07e')
     C16.overlapped_rule(ctx, rep, 'C07f')
+    from . import C20
+    C20.empty_vs_absent(ctx, rep, 'C07f')
     effects(ctx, rep, 'C07g')
     from .common import memo_rule
     memo_rule(ctx, rep, 'C07h', ('peptacular.digestion', 'peptacular.spans'))
